@@ -317,6 +317,22 @@ func (fc *FnCtx) contractEnv(c *Contract, callee *ssa.Function, args []SV, st *S
 			env.vars[c.Params[i]] = a
 		}
 	}
+	if callee != nil && len(c.Locals) > 0 {
+		// captured variables of the callee that were renamed
+		al, _ := fc.e.aliases(callee, c)
+		for spec, actual := range al {
+			if v, ok := env.vars[actual]; ok {
+				if _, have := env.vars[spec]; !have {
+					env.vars[spec] = v
+				}
+			}
+			if v, ok := env.cells[actual]; ok {
+				if _, have := env.cells[spec]; !have {
+					env.cells[spec] = v
+				}
+			}
+		}
+	}
 	return env
 }
 
